@@ -591,7 +591,8 @@ class TdmsSegmentObject(BaseSegmentObject):
 
         if self.data_type.nptype is not None:
             dtype = self.data_type.nptype.newbyteorder(endianness)
-            return fromfile(file, dtype=dtype, count=number_values)
+            # Convert to native byte order so data has the same dtype however it is read
+            return fromfile(file, dtype=dtype, count=number_values).astype(self.data_type.nptype, copy=False)
         elif self.data_type.size is not None:
             byte_data = fromfile(file, dtype=np.dtype('uint8'), count=number_values * self.data_type.size)
             return self.data_type.from_bytes(byte_data, endianness)
